@@ -1474,6 +1474,11 @@ class Array(ComplexModelBase):
         cls.__type_name__ = '%s%s%s' % (const.ARRAY_PREFIX, tn,
                                                              const.ARRAY_SUFFIX)
 
+        # the member was renamed: whoever has looked before must not keep
+        # seeing the placeholder
+        ComplexModelBase.get_flat_type_info.memo.clear()
+        ComplexModelBase.get_simple_type_info_with_prot.memo.clear()
+
         extends = child_v.__extends__
         while extends is not None and extends.get_type_name() is cls.Empty:
             extends._fill_empty_type_name(parent_ns, parent_tn,
